@@ -401,3 +401,41 @@ func H_C08_clone_mixed_scalars() {
 	verifAssert(eq, "the clone Equals the original")
 	verifReach("end")
 }
+
+// infinite floats are floats like any other: the clone of a tree holding them Equals the original, at the top
+// and nested, and stays independent
+func H_C08_clone_infinite_floats() {
+	inf := hInfinity(nondetIntRange(0, 1) == 1)
+	x := nondetInt()
+	var c any
+	if nondetIntRange(0, 1) == 0 {
+		c = NewList(inf, NewObject("k", inf, "n", x), x)
+	} else {
+		c = NewObject("f", inf, "l", NewList(x, inf))
+	}
+	var cl any
+	if l, ok := c.(List); ok {
+		cl = l.Clone()
+	} else {
+		cl = c.(Object).Clone()
+	}
+	eq, p := hEqualsAny(cl, c)
+	verifAssert(!p && eq, "Clone returns a container that Equals the original")
+	verifAssert(hExact(hSnapAny(c), hSnapAny(cl)), "the clone holds the same kinds and values at every position")
+	if l, ok := cl.(List); ok {
+		l.GetObject(1).Set("k", 0)
+		verifAssert(c.(List).GetObject(1).GetFloat("k") == inf, "mutating the clone leaves the original unchanged")
+	} else {
+		cl.(Object).GetList("l").Add(1)
+		verifAssert(c.(Object).GetList("l").Count() == 2, "mutating the clone leaves the original unchanged")
+	}
+	verifReach("end")
+}
+
+func hInfinity(neg bool) float64 {
+	one, zero := 1.0, 0.0
+	if neg {
+		one = -1.0
+	}
+	return one / zero
+}
